@@ -301,6 +301,46 @@ func checkCall(cc callCase) error {
 	if (er == nil) != (ewr == nil) || or != owr {
 		return fmt.Errorf("%s: group form returns a statement rendering %q, the function form renders %q", fn, or, owr)
 	}
+	// no form may modify the Code values it is given: build the call with items whose objects we
+	// keep (Ref), go through every form, append to what the forms return, then compare each item
+	// with a fresh build of the same recipe
+	if len(c.Items) > 0 {
+		withRefs := *c
+		withRefs.Items = nil
+		for i, it := range c.Items {
+			if it == nil || it.Kind == recipe.KNil || it.Kind == recipe.KNilStmt || it.Kind == recipe.KNilGroup {
+				withRefs.Items = append(withRefs.Items, it)
+				continue
+			}
+			cp := it.Clone()
+			cp.Ref = i + 1
+			withRefs.Items = append(withRefs.Items, cp)
+		}
+		bk := &recipe.Builder{}
+		var held []jen.Code
+		if perr := hx.Safe(func() error {
+			for _, it := range withRefs.Items {
+				held = append(held, bk.Code(it)) // built once; the forms below receive these very objects
+			}
+			bk.CallFunc(fn, &withRefs).Id("t1")
+			bk.CallMethod(jen.Id("p"), fn, &withRefs).Id("t2")
+			jen.CustomFunc(jen.Options{}, func(g *jen.Group) { bk.CallGroup(g, fn, &withRefs).Id("t3").Call() })
+			return nil
+		}); perr != nil {
+			return fmt.Errorf("%s with shared argument objects: %v", fn, perr)
+		}
+		for i, it := range c.Items {
+			if held[i] == nil || it == nil || it.Kind != recipe.KStmt && it.Kind != recipe.KDict {
+				continue
+			}
+			after, e1 := renderCode(held[i])
+			freshCode := (&recipe.Builder{}).Code(it)
+			want, e2 := renderCode(freshCode)
+			if (e1 == nil) != (e2 == nil) || after != want {
+				return fmt.Errorf("%s: argument %d was modified by the constructing calls: it now renders %q, a fresh build of the same argument renders %q", fn, i, after, want)
+			}
+		}
+	}
 	// the returned statement IS the appended one: a token added to it shows in the group
 	ret.Id("zz")
 	wantRet.(*jen.Statement).Id("zz")
